@@ -12,7 +12,11 @@
    new level), next-sibling and return-to-parent drop muB.  The subtrees owed along one path are
    disjoint parts of the trie, so muA <= words_upto n H (stkA_bound), which gives exactly the
    driver's budget.  A descent below depth H is impossible: max_length forbids it, or, without
-   max_length, the child would be a useful state at depth >= |Q| of a finite language. *)
+   max_length, the child would be a useful state at depth >= |Q| of a finite language.
+   Symbols of the start word outside the alphabet (next_symbol, e6d88f7): a level whose path holds
+   such a symbol has run off the automaton, nothing is entered from it, so it owes no subtree (ok);
+   the level of the first such symbol may owe all n subtrees of its parent instead of n-1.
+   should_yield (366d64a) plays no role in termination. *)
 From Coq Require Import List Arith Bool Lia Sorted.
 From AV Require Import Base.Util Base.Closure Spec.Lang Spec.FA Spec.DictOrder Spec.Words Model.Decide
                        Model.Product Model.Succ Model.SuccMachine Proofs.FARun Proofs.Product
@@ -88,6 +92,13 @@ Qed.
 Lemma V_0 n H : V n H 0 = words_upto n H.
 Proof. unfold V. simpl. rewrite Nat.sub_0_r. reflexivity. Qed.
 
+Lemma next_sym_res_in l r a b : next_sym l r a = Some b -> In b l.
+Proof.
+  unfold next_sym. destruct (memb a l) eqn:E.
+  - destruct (sym_succ l a) as [n|e] eqn:En; [|discriminate]. intro H. subst n. apply (sym_succ_in l a b En).
+  - intro H. apply find_some in H. tauto.
+Qed.
+
 Section Total.
   Variable m : dfa.
   Hypothesis Hv : valid_dfa m = true.
@@ -98,24 +109,30 @@ Section Total.
   Variables (syms : list nat) (first : nat) (rest : list nat).
   Hypothesis Esy : syms = first :: rest.
   Hypothesis Hnd : NoDup syms.
+  Hypothesis Hsy : forall a, In a syms <-> In a (d_syms m).
 
-  Notation ov := (Forall (fun x => In x syms)).
   Notation H := (the_hi m ohi).
   Notation n := (length syms).
   Notation run w := (dfa_run m (Some (d_init m)) w).
   Notation Vd := (V n H).
 
+  (* the path lies inside the alphabet *)
+  Definition ok (cs : list nat) : bool := forallb (fun c => memb c syms) cs.
+  (* candidates left at the parent after returning from the child c *)
+  Definition nx (c : nat) : nat := remc syms (next_sym syms reverse c).
+
   Fixpoint stkA (cs : list nat) : nat :=
     match cs with
     | [] => 0
-    | c :: cs' => length (tail_after syms c) * Vd (S (length cs')) + stkA cs'
+    | c :: cs' => (if ok cs' then nx c * Vd (S (length cs')) else 0) + stkA cs'
     end.
   Fixpoint stkB (cs : list nat) : nat :=
     match cs with
     | [] => 0
-    | c :: cs' => S (length (tail_after syms c)) + stkB cs'
+    | c :: cs' => S (nx c) + stkB cs'
     end.
-  Definition muA (C : cfg) : nat := remc syms (c_cand C) * Vd (S (length (c_chars C))) + stkA (c_chars C).
+  Definition muA (C : cfg) : nat :=
+    (if ok (c_chars C) then remc syms (c_cand C) * Vd (S (length (c_chars C))) else 0) + stkA (c_chars C).
   Definition muB (C : cfg) : nat := S (remc syms (c_cand C)) + stkB (c_chars C).
   Definition mu (C : cfg) : nat := S n * muA C + muB C.
 
@@ -130,85 +147,112 @@ Section Total.
     intro Hc. destruct c as [a|]; [|simpl; lia]. unfold remc. apply tail_after_len. apply Hc. reflexivity.
   Qed.
 
-  (* the subtrees owed along a path are disjoint parts of the trie *)
-  Lemma stkA_bound cs : ov cs -> stkA cs + Vd (length cs) <= Vd 0.
+  Lemma nx_le c : nx c <= n.
+  Proof. unfold nx. apply remc_le. intros a Ha. exact (next_sym_res_in syms reverse c a Ha). Qed.
+
+  Lemma nx_in c : In c syms -> nx c = length (tail_after syms c) /\ S (nx c) <= n.
   Proof.
-    induction cs as [|c cs IH]; intro Hcs; [simpl; lia|]. inversion Hcs as [|? ? Hc Hcs']; subst.
-    specialize (IH Hcs'). simpl stkA. simpl length.
-    pose proof (tail_after_len syms c Hc) as Hl. pose proof (V_ge n H (length cs)) as Hg.
-    set (r := length (tail_after syms c)) in *. set (v := Vd (S (length cs))) in *.
-    assert (Hm : S r * v <= n * v) by (apply Nat.mul_le_mono_r; exact Hl). lia.
+    intro Hc. destruct (sym_succ_total syms c Hc) as [nxt En]. unfold nx.
+    rewrite (next_sym_in syms c Hc reverse nxt En), (sym_succ_remc syms Hnd c nxt En).
+    split; [reflexivity|apply tail_after_len; exact Hc].
   Qed.
 
-  Lemma stkB_bound cs : ov cs -> stkB cs <= length cs * n.
+  Lemma ok_cons c cs : ok (c :: cs) = memb c syms && ok cs.
+  Proof. reflexivity. Qed.
+
+  (* the subtrees owed along a path are disjoint parts of the trie *)
+  Lemma stkA_bound cs : stkA cs + (if ok cs then Vd (length cs) else 0) <= Vd 0.
   Proof.
-    induction cs as [|c cs IH]; intro Hcs; [simpl; lia|]. inversion Hcs as [|? ? Hc Hcs']; subst.
-    specialize (IH Hcs'). pose proof (tail_after_len syms c Hc) as Hl. simpl stkB. simpl length.
+    induction cs as [|c cs IH]; [simpl; lia|]. simpl stkA. rewrite ok_cons. simpl length.
+    pose proof (V_ge n H (length cs)) as Hg. pose proof (nx_le c) as Hle.
+    set (v := Vd (S (length cs))) in *.
+    destruct (ok cs); [|rewrite andb_false_r; lia].
+    rewrite andb_true_r. destruct (memb c syms) eqn:Ec.
+    - apply memb_In in Ec. destruct (nx_in c Ec) as [_ Hl].
+      assert (Hm : S (nx c) * v <= n * v) by (apply Nat.mul_le_mono_r; exact Hl). lia.
+    - assert (Hm : nx c * v <= n * v) by (apply Nat.mul_le_mono_r; exact Hle). lia.
+  Qed.
+
+  Lemma stkB_bound cs : stkB cs <= length cs * S n.
+  Proof.
+    induction cs as [|c cs IH]; [simpl; lia|]. pose proof (nx_le c) as Hl. simpl stkB. simpl length.
     simpl Nat.mul. lia.
   Qed.
 
-  (* a descent happens above depth H only *)
+  (* a descent happens above depth H only, and only from a path inside the alphabet *)
   Lemma descend_depth p a :
-    in_co co (ostep m (run p) a) && can_descend ohi (length p) = true -> S (length p) <= H.
+    in_co co (ostep m (run p) a) && can_descend ohi (length p) = true ->
+    S (length p) <= H /\ Forall (fun c => In c syms) p.
   Proof.
-    intro E. apply andb_true_iff in E. destruct E as [E1 E2]. unfold the_hi.
-    destruct ohi as [h|] eqn:Eo.
-    - simpl in E2. apply Nat.ltb_lt in E2. lia.
-    - destruct (ostep m (run p) a) as [t|] eqn:Et; [|discriminate]. simpl in E1.
-      apply memb_In in E1. apply Hco in E1. destruct E1 as [_ [z Hz]].
-      destruct (finite_isfinite m Hv (Hfin eq_refl)) as [_ Hb].
-      assert (Hacc : L_dfa m (p ++ a :: z)).
-      { unfold L_dfa, dfa_acc, dfa_acc_from. rewrite dfa_run_app. unfold dfa_acc_from in Hz.
-        replace (dfa_run m (run p) (a :: z)) with (dfa_run m (ostep m (run p) a) z) by reflexivity.
-        rewrite Et. exact Hz. }
-      specialize (Hb _ Hacc). rewrite app_length in Hb. simpl in Hb. unfold default_hi. lia.
+    intro E. apply andb_true_iff in E. destruct E as [E1 E2]. split.
+    - unfold the_hi. destruct ohi as [h|] eqn:Eo.
+      + simpl in E2. apply Nat.ltb_lt in E2. lia.
+      + destruct (ostep m (run p) a) as [t|] eqn:Et; [|discriminate]. simpl in E1.
+        apply memb_In in E1. apply Hco in E1. destruct E1 as [_ [z Hz]].
+        destruct (finite_isfinite m Hv (Hfin eq_refl)) as [_ Hb].
+        assert (Hacc : L_dfa m (p ++ a :: z)).
+        { unfold L_dfa, dfa_acc, dfa_acc_from. rewrite dfa_run_app. unfold dfa_acc_from in Hz.
+          replace (dfa_run m (run p) (a :: z)) with (dfa_run m (ostep m (run p) a) z) by reflexivity.
+          rewrite Et. exact Hz. }
+        specialize (Hb _ Hacc). rewrite app_length in Hb. simpl in Hb. unfold default_hi. lia.
+    - destruct (run p) as [q|] eqn:Er; [|simpl in E1; discriminate].
+      pose proof (run_some_syms m Hv p _ _ Er) as Hp. rewrite Forall_forall in *.
+      intros c Hc. apply Hsy. apply Hp. exact Hc.
+  Qed.
+
+  Lemma ok_of_Forall cs : Forall (fun c => In c syms) cs -> ok cs = true.
+  Proof.
+    intro Hf. unfold ok. apply forallb_forall. rewrite Forall_forall in Hf.
+    intros c Hc. apply memb_In. apply Hf. exact Hc.
   Qed.
 
   (* one loop iteration: no error, well-formedness kept, the measure drops *)
   Lemma step_total C : wf m syms C -> (c_chars C <> [] \/ c_cand C <> None) ->
     exists y C', mstep m co syms first reverse lo ohi C = Ok (y, C') /\ wf m syms C' /\ mu C' < mu C.
   Proof.
-    intros [Hst [Hov Hcand]] Hne. unfold mstep.
+    intros [Hst Hcand] Hne. unfold mstep.
     destruct (stack_top m _ _ Hst) as [below Ess]. rewrite Ess. cbv zeta.
     set (p := rev (c_chars C)) in *.
     destruct (c_cand C) as [a|] eqn:Ec.
     - assert (Ha : In a syms) by (apply Hcand; reflexivity).
+      destruct (nx_in a Ha) as [Hnx _].
       destruct (in_co co (ostep m (run p) a) && can_descend ohi (length (c_chars C))) eqn:Evi.
       + (* descend *)
         eexists. eexists. split; [reflexivity|]. split.
-        * split; [|split]; simpl.
+        * split; simpl.
           -- split; [|rewrite <- Ess; exact Hst]. fold p. rewrite dfa_run_app. reflexivity.
-          -- constructor; assumption.
           -- intros x Hx. injection Hx as <-. exact first_in.
-        * assert (Hd : S (length (c_chars C)) <= H).
+        * assert (Hd : S (length (c_chars C)) <= H /\ ok (c_chars C) = true).
           { replace (length (c_chars C)) with (length p) by (unfold p; apply rev_length).
-            apply descend_depth with (a := a). unfold p at 2. rewrite rev_length. exact Evi. }
+            destruct (descend_depth p a) as [H1 H2]; [unfold p at 2; rewrite rev_length; exact Evi|].
+            split; [exact H1|]. apply ok_of_Forall. unfold p in H2. apply Forall_rev in H2.
+            rewrite rev_involutive in H2. exact H2. }
+          destruct Hd as [Hd Hok].
           unfold mu, muA, muB. rewrite Ec. simpl c_cand. simpl c_chars. rewrite remc_first.
-          simpl stkA. simpl stkB. simpl length. unfold remc.
+          simpl stkA. simpl stkB. rewrite ok_cons, Hok. apply memb_In in Ha. rewrite Ha. simpl andb. cbv iota.
+          simpl length. unfold remc. rewrite Hnx.
           rewrite (V_step n H (S (length (c_chars C))) Hd).
           set (r := length (tail_after syms a)). set (v := Vd (S (S (length (c_chars C))))).
-          set (A := stkA (c_chars C)). set (B := stkB (c_chars C)). set (k := length rest). nia.
+          set (A := stkA (c_chars C)). set (B := stkB (c_chars C)). set (k := n). nia.
       + (* next sibling *)
-        destruct (sym_succ_total syms a Ha) as [nx En]. rewrite En. simpl.
         eexists. eexists. split; [reflexivity|]. split.
-        * split; [|split]; simpl; [rewrite <- Ess; exact Hst|exact Hov|].
-          intros x Hx. subst nx. apply (sym_succ_in syms a x En).
-        * unfold mu, muA, muB. rewrite Ec. simpl c_cand. simpl c_chars.
-          rewrite (sym_succ_remc syms Hnd a nx En). unfold remc.
+        * split; simpl; [rewrite <- Ess; exact Hst|].
+          intros x Hx. exact (next_sym_res_in syms reverse a x Hx).
+        * unfold mu, muA, muB. rewrite Ec. simpl c_cand. simpl c_chars. fold (nx a). rewrite Hnx. unfold remc.
           set (r := length (tail_after syms a)). set (v := Vd (S (length (c_chars C)))).
-          set (A := stkA (c_chars C)). set (B := stkB (c_chars C)). set (k := length rest). nia.
+          set (A := stkA (c_chars C)). set (B := stkB (c_chars C)). set (k := n).
+          destruct (ok (c_chars C)); nia.
     - (* return to the parent *)
       destruct (c_chars C) as [|a cs] eqn:Ecs; [destruct Hne as [Hne|Hne]; congruence|].
-      inversion Hov as [|? ? Ha Hov']; subst.
-      destruct (sym_succ_total syms a Ha) as [nx En]. rewrite En. simpl.
       eexists. eexists. split; [reflexivity|]. split.
       + simpl in Hst. rewrite Ess in Hst. destruct Hst as [_ Hst].
-        split; [|split]; simpl; [exact Hst|exact Hov'|].
-        intros x Hx. subst nx. apply (sym_succ_in syms a x En).
-      + unfold mu, muA, muB. rewrite Ec, Ecs. simpl c_cand. simpl c_chars.
-        rewrite (sym_succ_remc syms Hnd a nx En). simpl remc. simpl stkA. simpl stkB.
-        set (r := length (tail_after syms a)). set (v := Vd (S (length cs))).
-        set (A := stkA cs). set (B := stkB cs). set (k := length rest). nia.
+        split; simpl; [exact Hst|].
+        intros x Hx. exact (next_sym_res_in syms reverse a x Hx).
+      + unfold mu, muA, muB. rewrite Ec, Ecs. simpl c_cand. simpl c_chars. fold (nx a).
+        simpl remc. simpl stkA. simpl stkB.
+        set (r := nx a). set (v := Vd (S (length cs))).
+        set (A := stkA cs). set (B := stkB cs). set (k := n).
+        destruct (ok (a :: cs)); destruct (ok cs); nia.
   Qed.
 
   Lemma loop_total : forall f C, wf m syms C -> mu C <= f ->
@@ -232,47 +276,38 @@ Section Total.
       apply Hexit. exact Hwf.
   Qed.
 
-  (* the initial configuration fits the driver's budget *)
-  Lemma mu_init start strict : (forall s, start = Some s -> ov s) ->
+  (* the initial configuration fits the driver's budget, whatever the start word *)
+  Lemma mu_init start strict :
     mu (init_cfg m first start strict reverse)
       <= (words_upto n H + match start with Some s => length s | None => 0 end + 1) * (n + 2).
   Proof.
-    intro Hs. unfold init_cfg. destruct start as [s|].
-    - specialize (Hs s eq_refl). apply Forall_rev in Hs.
-      set (cand := if reverse then None else Some first).
+    unfold init_cfg. destruct start as [s|].
+    - set (cand := if reverse then None else Some first).
       assert (Hr : remc syms cand <= n).
       { apply remc_le. unfold cand. intros a Ha. destruct reverse; [discriminate|].
         injection Ha as <-. exact first_in. }
       unfold mu, muA, muB. simpl c_cand. simpl c_chars. fold cand.
-      pose proof (stkA_bound (rev s) Hs) as HA. pose proof (stkB_bound (rev s) Hs) as HB.
+      pose proof (stkA_bound (rev s)) as HA. pose proof (stkB_bound (rev s)) as HB.
       rewrite rev_length in *. pose proof (V_ge n H (length s)) as Hg. rewrite V_0 in HA.
       set (r := remc syms cand) in *. set (v := Vd (S (length s))) in *.
       assert (Hm : r * v <= n * v) by (apply Nat.mul_le_mono_r; exact Hr).
       set (A := stkA (rev s)) in *. set (B := stkB (rev s)) in *. set (W := words_upto n H) in *.
-      set (k := length s) in *. set (nn := n) in *. nia.
+      set (k := length s) in *. set (nn := n) in *. destruct (ok (rev s)); nia.
     - unfold mu, muA, muB. simpl c_cand. simpl c_chars. rewrite remc_first. simpl stkA. simpl stkB.
+      simpl ok. cbv iota.
       change (length (@nil nat)) with 0. pose proof (V_ge n H 0) as Hg. rewrite V_0 in Hg.
       set (v := Vd 1) in *. set (W := words_upto n H) in *. set (nn := n) in *. nia.
   Qed.
 End Total.
 
-(* ---------- the theorem ---------- *)
-Lemma set_of_nonempty l : l <> [] -> set_of l <> [].
-Proof.
-  intros Hl E. destruct l as [|a l]; [congruence|].
-  assert (Ha : In a (set_of (a :: l))) by (apply set_of_In; left; reflexivity).
-  rewrite E in Ha. destruct Ha.
-Qed.
-
+(* ---------- the theorem: no hypothesis on the start word or on the alphabet ---------- *)
 Theorem machine_total fuel m start strict reverse lo ohi :
   valid_dfa m = true ->
   (reverse = true \/ ohi = None -> finite_lang (L_dfa m)) ->
-  (forall s, start = Some s -> Forall (fun a => In a (d_syms m)) s) ->
-  d_syms m <> [] ->
   machine_fuel m start ohi <= fuel ->
   exists l, succ_machine fuel m start strict reverse lo ohi = Ok l.
 Proof.
-  intros Hv Hfin Hstart Hne Hfuel. unfold succ_machine.
+  intros Hv Hfin Hfuel. unfold succ_machine.
   assert (Efin : (if reverse then isfinite_m m else Ok true) = Ok true).
   { destruct reverse; [|reflexivity]. apply (finite_isfinite m Hv). apply Hfin. left. reflexivity. }
   rewrite Efin. simpl.
@@ -285,47 +320,40 @@ Proof.
   assert (Hlen : length (machine_syms m reverse) = length (set_of (d_syms m))).
   { unfold machine_syms. destruct reverse; [apply rev_length|reflexivity]. }
   destruct (machine_syms m reverse) as [|first rest] eqn:Esy.
-  - exfalso. apply (set_of_nonempty _ Hne). destruct (set_of (d_syms m)); [reflexivity|discriminate].
-  - assert (Hov : forall s, start = Some s -> Forall (fun a => In a (first :: rest)) s).
-    { intros s Hs. specialize (Hstart s Hs). rewrite Forall_forall in *. intros a Ha. apply Hsy. apply Hstart. exact Ha. }
-    assert (Hfin' : ohi = None -> finite_lang (L_dfa m)) by (intro E; apply Hfin; right; exact E).
-    apply (loop_total m Hv lo ohi reverse Hfin' co Hco (first :: rest) first rest eq_refl Hnd).
-    + unfold init_cfg. destruct start as [s|]; (split; [|split]); simpl.
+  - eexists. reflexivity.
+  - assert (Hfin' : ohi = None -> finite_lang (L_dfa m)) by (intro E; apply Hfin; right; exact E).
+    apply (loop_total m Hv lo ohi reverse Hfin' co Hco (first :: rest) first rest eq_refl Hnd Hsy).
+    + unfold init_cfg. destruct start as [s|]; split; simpl.
       * apply (trace_rev_ok m s [] [] (Some (d_init m))); reflexivity.
-      * apply Forall_rev. apply Hov. reflexivity.
       * intros a Ha. destruct reverse; [discriminate|]. inversion Ha; subst. left. reflexivity.
       * reflexivity.
-      * constructor.
       * intros a Ha. inversion Ha; subst. left. reflexivity.
-    + pose proof (mu_init m ohi reverse (first :: rest) first rest eq_refl start strict Hov) as Hmu.
-      unfold machine_fuel in Hfuel. cbv zeta in Hfuel. rewrite Hlen in Hmu. eapply Nat.le_trans; [exact Hmu|]. eapply Nat.le_trans; [apply Nat.le_succ_diag_r|exact Hfuel].
+    + pose proof (mu_init m ohi reverse (first :: rest) first rest eq_refl Hnd start strict) as Hmu.
+      unfold machine_fuel in Hfuel. cbv zeta in Hfuel. rewrite Hlen in Hmu.
+      eapply Nat.le_trans; [exact Hmu|]. eapply Nat.le_trans; [apply Nat.le_succ_diag_r|exact Hfuel].
 Qed.
 
 (* total correctness: within the budget the machine returns exactly the specified list *)
 Theorem machine_forward_total fuel m start strict lo ohi :
   valid_dfa m = true ->
   (ohi = None -> finite_lang (L_dfa m)) ->
-  (forall s, start = Some s -> Forall (fun a => In a (d_syms m)) s) ->
-  d_syms m <> [] ->
   machine_fuel m start ohi <= fuel ->
   succ_machine fuel m start strict false lo ohi = Ok (succ_list m start strict lo (the_hi m ohi)).
 Proof.
-  intros Hv Hfin Hstart Hne Hfuel.
+  intros Hv Hfin Hfuel.
   destruct (machine_total fuel m start strict false lo ohi Hv) as [l El]; try assumption.
   - intros [E|E]; [discriminate|apply Hfin; exact E].
-  - rewrite El. f_equal. exact (machine_forward_correct fuel m start strict lo ohi l Hv Hfin Hstart El).
+  - rewrite El. f_equal. exact (machine_forward_correct fuel m start strict lo ohi l Hv Hfin El).
 Qed.
 
 Theorem machine_reverse_total fuel m start strict lo ohi :
   valid_dfa m = true ->
   finite_lang (L_dfa m) ->
-  (forall s, start = Some s -> Forall (fun a => In a (d_syms m)) s) ->
-  d_syms m <> [] ->
   machine_fuel m start ohi <= fuel ->
   succ_machine fuel m start strict true lo ohi = Ok (pred_list m start strict lo (the_hi m ohi)).
 Proof.
-  intros Hv Hfin Hstart Hne Hfuel.
+  intros Hv Hfin Hfuel.
   destruct (machine_total fuel m start strict true lo ohi Hv) as [l El]; try assumption.
   - intros _. exact Hfin.
-  - rewrite El. f_equal. exact (machine_reverse_correct fuel m start strict lo ohi l Hv Hfin Hstart El).
+  - rewrite El. f_equal. exact (machine_reverse_correct fuel m start strict lo ohi l Hv Hfin El).
 Qed.
